@@ -48,6 +48,17 @@ def directed_blocks(rng, start):
     return start, [['make_block', name, [member], [reader], None if rng.random() < 0.5 else list(ops[member])], ['remove_block', name], ['copy']]
 
 
+def directed_order(rng, start):
+    """order_inputs / order_outputs with a label listed once too often: refused, or at least no duplicate in the lists"""
+    which = rng.choice(['order_inputs', 'order_outputs'])
+    ls = list(start['inputs'] if which == 'order_inputs' else start['outputs'])
+    if not ls:
+        return None
+    k = rng.randint(1, len(ls))
+    part = rng.sample(ls, k) if which == 'order_inputs' else ls[:k]
+    return start, [[which, part + [rng.choice(part)]], ['copy']]
+
+
 def correspondence(ctx):
     rng = ctx.rng('corr')
     reqs = []
@@ -58,6 +69,8 @@ def correspondence(ctx):
             start, steps = directed(rng, start) or (start, steps)
         if k % 10 == 4:
             start, steps = directed_blocks(rng, start) or (start, steps)
+        if k % 10 == 2:
+            start, steps = directed_order(rng, start) or (start, steps)
         reqs.append({'op': 'mutate', 'c': start, 'steps': steps})
         for s in steps:
             ctx.count('op:' + s[0])
@@ -79,6 +92,8 @@ def search(ctx):
             start, steps = directed(rng, start) or (start, steps)
         if k % 10 == 4:
             start, steps = directed_blocks(rng, start) or (start, steps)
+        if k % 10 == 2:
+            start, steps = directed_order(rng, start) or (start, steps)
         res = py_mutate({'c': start, 'steps': steps})['ok']
         good = [x for x in res if 'err' not in x]
         ctx.case(json.dumps(['s', start['gates'], steps]), len(good) >= 3)
